@@ -88,13 +88,13 @@ package chain
 //@   ensures [discard] forall n string, k string :: memView(db, n, k) == old(db.buckets[n][k])
 //@   ensures [pending] forall n string :: !(n in db.puts) && !(n in db.dels)
 //
-//@ func (memBucket).Get props C17
+//@ func (memBucket).Get props C17,C02
 //@   inline
 //@   nopanic
 //@   assigns nothing
 //@   requires memInv(b.db)
 //@   ensures [view] result == memView(b.db, b.name, string(key))
-//@ func (memBucket).Put props C17
+//@ func (memBucket).Put props C17,C02
 //@   inline
 //@   nopanic
 //@   requires memInv(b.db)
@@ -103,7 +103,7 @@ package chain
 //@   ensures [err] (result == nil) <==> old(b.db.puts[b.name] != nil || b.db.buckets[b.name] != nil)
 //@   ensures [point] result == nil ==> forall k string :: memView(b.db, b.name, k) == ite(k == old(string(key)), value, old(memView(b.db, b.name, k)))
 //@   ensures [frame] forall n string, k string :: n != b.name ==> memView(b.db, n, k) == old(memView(b.db, n, k))
-//@ func (memBucket).Delete props C17
+//@ func (memBucket).Delete props C17,C02
 //@   inline
 //@   nopanic
 //@   requires memInv(b.db)
@@ -132,17 +132,17 @@ package chain
 //@ func (*CacheDB).Cancel props C17
 //@   requires db != nil && db.mem != nil && db.db != nil && memInv(db.mem)
 //@   ensures [both-cancelled] called("MemDB).Cancel") && called("DB.Cancel")
-//@ func (cacheBucket).Get props C17
+//@ func (cacheBucket).Get props C17,C02
 //@   nopanic
 //@   requires cacheInv(b)
 //@   ensures [view] result == cacheView(b, string(key))
-//@ func (cacheBucket).Put props C17
+//@ func (cacheBucket).Put props C17,C02
 //@   nopanic
 //@   requires cacheInv(b) && (b.mb.db.puts[b.mb.name] != nil || b.mb.db.buckets[b.mb.name] != nil)
 //@   ensures [inv] cacheInv(b)
 //@   ensures [ok] result == nil
 //@   ensures [point] forall k string :: cacheView(b, k) == ite(k == old(string(key)), value, old(cacheView(b, k)))
-//@ func (cacheBucket).Delete props C17
+//@ func (cacheBucket).Delete props C17,C02
 //@   nopanic
 //@   requires cacheInv(b) && (b.mb.db.dels[b.mb.name] != nil || b.mb.db.buckets[b.mb.name] != nil)
 //@   ensures [inv] cacheInv(b)
@@ -853,7 +853,7 @@ package chain
 // by every successful reorganisation (reorgTo, above) and every reader of the pool revalidates
 // first; revalidatePool itself -- re-validating every transaction in order against a fresh
 // mid-state of the tip -- is consensus-dependent and assumed (poolInv, C14).
-//@ func (*Manager).PoolTransactions props C05
+//@ func (*Manager).PoolTransactions props C05,C14
 //@   nopanic
 //@   requires m != nil
 //@   ensures [revalidated] called("revalidatePool")
